@@ -17,6 +17,7 @@ Inductive err :=
 | EKey       (* KeyError in the VM: increment of a register that was never set / jump to an unknown label *)
 | EIndex     (* IndexError: command channel outside the VM's channel list / transformation list *)
 | EDiv       (* ZeroDivisionError: amplitude 0 in the hardware scaling *)
+| ENotImpl   (* NotImplementedError: Play command in the VM (only in the definitions translated from the source) *)
 | EFuel.     (* model only: the fuel given to run_vm did not suffice *)
 
 Inductive res (A : Type) := Ok (a : A) | Err (e : err).
@@ -322,6 +323,13 @@ Definition entry_unchanged (st st1 : tstate) : bool :=
   forallb (fun ce : (nat * key) * depstate =>
              match alookup ck_eqb (fst ce) (t_deps st1) with Some e => depstate_eqb e (snd ce) | None => false end) (t_deps st).
 
+(* _add_hold_node, first statement: a hold whose duration depends on a loop index (duration_factors is a non-empty
+   mapping, even one whose factors are all zero) is refused with NotImplementedError before any command is emitted.  The
+   holds of `src` have constant durations; this check is the whole model of the refused class (tied to the source by
+   C17_index_dependent_duration_refused) *)
+Definition hold_duration_check (duration_factors : list Q) : res unit :=
+  match duration_factors with [] => Ok tt | _ => Err ENotImpl end.
+
 (* add_node *)
 Fixpoint tr_node (n : node) (st : tstate) {struct n} : res (list cmd * tstate) :=
   match n with
@@ -435,6 +443,8 @@ Definition vm_step (cmds : list cmd) (s : vm) : stepres :=
           | Some cur => Running (mkV cur (v_time s) (aset ck_eqb (ch, k) v (v_regs s)) (v_hist s) (v_counts s) next)
           end
       | CInc ch d k =>
+          (* self.registers[cmd.channel] comes first: IndexError for a channel outside the VM, then KeyError *)
+          if negb (Nat.ltb ch (length (v_cur s))) then Crashed EIndex else
           match alookup ck_eqb (ch, k) (v_regs s) with
           | None => Crashed EKey
           | Some old =>
